@@ -53,6 +53,12 @@ CHECKS["C08"] = ("exploration", "differential query runner in four languages aga
 CHECKS["C11"] = ("exploration", "metamorphic relation checker (three-way predicate partition, count, distinct, ordered window, union all) over generated queries in every language that can express the relation",
   "For random base queries and predicates on random graphs (incl. results crossing 2048 rows) the relations rows(Q) = rows(Q and p) + rows(Q and not p) + rows(Q and p is null), count = number of rows, DISTINCT = set of rows, SKIP s LIMIT n = rows[s..s+n] of the ordered result, UNION ALL = concatenation are evaluated on the engine's own answers; a failing relation is attributed to an open finding only if the finding's deviation rule predicts every component answer.",
   "No reference evaluator decides the verdict; skip/limit values from a fixed boundary list; languages limited to what each front end accepts.", "DESIGN.md §4 C11")
+CHECKS["C09"] = ("exploration", "differential execution of one bound plan under all 2^3 optimizer switch combinations x 3 statistics states, oracle = the un-rewritten plan; mismatches delta-debugged",
+  "Random graphs and GQL/Cypher texts (multi-MATCH, OPTIONAL MATCH, WITH, UNWIND, variable-length, aggregates, mutating statements on fresh copies) are translated and bound once and executed under every optimizer configuration with the physical strategy pinned; rows (and the resulting graph digest for mutations) must equal the un-rewritten plan's. Evidence counts how many plans each rewrite rule actually changed; a run in which nothing was rewritten is inconclusive.",
+  "Only filter push-down fires on plans the front ends produce (join reordering and projection push-down have nothing to rewrite there; hand-built join plans are run for information only).", "DESIGN.md §4 C09")
+CHECKS["C10"] = ("exploration", "differential execution of one query under physical configurations (index subsets, zone-map / index / range paths via planner switches, factorized on/off, warm vs cold cache across data changes) against the everything-off configuration; directed cell matrix + random + histories",
+  "A directed matrix (15 predicate shapes x 5 literal types x node/edge target x 4 paths) is enumerated on every run, plus random queries under 9 configuration variants covering every subset of indexed properties, factorized vs flat execution of multi-hop chains, and long-lived sessions re-running a text across index/label/property changes versus fresh sessions. The oracle is the same text on the same data with every optimisation removed (hooks planner.no_zone_map / no_index_path / no_range_path).",
+  "The baseline is the engine's own generic scan+filter path (its defects are C08's); epoch 0 only, so visibility bypasses of the index paths are not observable here (C01 sees them).", "DESIGN.md §4 C10")
 NOT_YET = {}
 
 def main():
